@@ -217,12 +217,13 @@ def gen_config(rng, small: bool = False, focus: str | None = None) -> dict:
         # valid relative names, including unusual ones (consecutive dots, leading dot, spaces, non-ASCII, nested dir):
         # every one of them must be written and read back like "m.data" (seeded change C07-r4m3)
         "naming": rng.choice(["m.data", "w.v1.data", "sub/m.data", "noext", "a.b.c.bin", "m.data", "w..v2.data",
-                              "..hidden.data", "m data.bin", "sub/deep/w...x", "poids_é.data", "a..b/m.data"]),
+                              "..hidden.data", "m data.bin", "sub/deep/w...x", "poids_é.data", "a..b/m.data",
+                              "layer\\w.data", "sub/a\\b.bin"]),   # a backslash is an ordinary character on POSIX
         "fail_at": None,
         "resave": None,
         "tseed": rng.randrange(1 << 30),
         # model file name: the safetensors backend derives its data file names from it
-        "mname": rng.choice(["model.onnx", "model.onnx", "m.v1.5.onnx", "m..fp16.onnx", "my model.onnx", "..m.onnx"]),
+        "mname": rng.choice(["model.onnx", "model.onnx", "m.v1.5.onnx", "m..fp16.onnx", "my model.onnx", "..m.onnx", "export\\m.onnx"]),
     }
     if focus == "aligned-shards":
         # several tensors per shard, several shards, alignment with a small align_threshold, concurrent writers
